@@ -122,7 +122,7 @@ def histOut (h : List (Res × LI)) : String :=
 
 def step? (t : String) : Option Step :=
   if t = "e" then some .exec else if t = "t" then some .test else if t = "m" then some .mtch
-  else if t = "s" then some .search else if t = "rF" then some .replaceF
+  else if t = "s" then some .search else if t = "rF" then some .replaceF else if t = "rT" then some .replaceT
   else if t.startsWith "rS:" then (hex? (dropS t 3)).map .replaceS
   else if t.startsWith "rK:" then (hex? (dropS t 3)).map .replaceK
   else if t = "p:u" then some (.split none)
@@ -184,7 +184,7 @@ def devX (pat flags subj : List Nat) (steps : List Step) : List String :=
     let ml := flags.contains 109
     let has (p : Step → Bool) := steps.any p
     let execLike := has fun | .exec | .test => true | .mtch => !g | _ => false
-    let allLike := has fun | .mtch => g | .replaceS _ | .replaceF | .replaceK _ => g | _ => false
+    let allLike := has fun | .mtch => g | .replaceS _ | .replaceF | .replaceK _ | .replaceT => g | _ => false
     let anyMatch := has fun | .setLI _ => false | _ => true
     let nl := nullable r
     base ++
@@ -264,6 +264,27 @@ def handle (ws : List String) : String :=
         | .ok g d r =>
           let h := histOut (Spec.run (es5Engine d r) (Str.unitsOfBytes sb) Str.unitsOfBytes { global := g, lastIndex := .int 0 } steps)
           h ++ fresh ++ h ++ "|loop:diff"
+        | .error c => "throw:" ++ c
+        | .opaque => "throw:SyntaxError"
+      mo ++ " " ++ sp ++ " " ++ devOut (devX pat fb sb steps)
+    | _, _, _, _ => "bad-op"
+  -- the receiver dimension: the String methods are called through .call on a receiver that is not a primitive
+  -- string (String object, number, boolean, object with a counting toString); <recv> = p:<hex> S:<hex> n:<hex> b:<hex>
+  -- o:<hex>, the hex being the string the receiver converts to.  §15.5.4.10-14 step 2 / §15.10.6.2 step 2:
+  -- ToString once per call; everything afterwards sees that primitive string.
+  | ["xr", recv, p, f, st] =>
+    let kind := (recv.splitOn ":").headD ""
+    match hex? (dropS recv (kind.length + 1)), hex? p, hex? f, steps? st with
+    | some sb, some pb, some fb, some steps =>
+      let pat := Str.decodeRunes pb
+      let calls := (steps.filter fun | .setLI _ => false | _ => true).length
+      let conv := "|conv:" ++ toString (if kind = "o" then calls else 0)
+      let mo := match buildModel pat fb with
+        | .error c => "throw:" ++ c
+        | .opaque => "unmodelled"
+        | .ok g d r => histOut (Model.run (goEngine d r) sb { global := g, lastIndex := .int 0 } steps) ++ conv
+      let sp := match buildSpec pat fb with
+        | .ok g d r => histOut (Spec.run (es5Engine d r) (Str.unitsOfBytes sb) Str.unitsOfBytes { global := g, lastIndex := .int 0 } steps) ++ conv
         | .error c => "throw:" ++ c
         | .opaque => "throw:SyntaxError"
       mo ++ " " ++ sp ++ " " ++ devOut (devX pat fb sb steps)
